@@ -32,6 +32,18 @@ class _Cols:
         self.cols = cols
 
 
+class _Rows:
+    """rows [start : start + length] of one column group (length None: up to the end)"""
+    def __init__(self, group, start, length, node):
+        self.group, self.start, self.length, self.node = group, start, length, node
+
+
+class _Boundary(Unsupported):
+    def __init__(self, what, node):
+        Unsupported.__init__(self, what)
+        self.node = node
+
+
 class _Hooks:
     def __init__(self, ev, mode, gyro_cols, accel_cols):
         self.ev, self.mode = ev, mode
@@ -84,7 +96,20 @@ class _Hooks:
             elif key == (1, None, None):
                 which = 'cur'
             else:
+                a0, b0, st0 = key
+                a0 = 0 if a0 is None else a0
+                if st0 is None and isinstance(a0, int) and a0 >= 0 and \
+                        (b0 is None or isinstance(b0, int)):
+                    ln = b0 - a0 if isinstance(b0, int) and b0 > 0 else None
+                    return _Rows(s, a0, ln, node)
                 raise Unsupported('slice %r of readings' % (key,))
+            return self.generic(s, which)
+        return None
+
+    def generic(self, s, which):
+        A = self.ev.A
+        half = A.div(A.const(1), A.const(2))
+        if True:
             a, b = self.a[s], self.b[s]
             if self.mode == 'rate':
                 xs = a if which == 'prev' else [A.add(x, y) for x, y in zip(a, b)]
@@ -92,9 +117,36 @@ class _Hooks:
                 sg = A.neg(half) if which == 'prev' else half
                 xs = [A.mul(A.add(x, A.mul(sg, y)), self.dt) for x, y in zip(a, b)]
             return self.vec(xs)
-        return None
 
     def call(self, ev, q, node, args, kwargs, env):
+        if q in ('numpy.vstack', 'numpy.concatenate', 'numpy.row_stack') and args and \
+                isinstance(args[0], (list, tuple)) and args[0] and \
+                all(isinstance(x, _Rows) for x in args[0]) and \
+                set(kwargs) <= {'axis'} and kwargs.get('axis', 0) == 0:
+            # pieces of one column group stacked along the sample axis: output row r of piece k
+            # (which starts at output row R_k) is sample start_k + (r - R_k); the stack is a
+            # plain shifted view of the readings only when start_k - R_k is the same for all k
+            pieces = list(args[0])
+            if len({p.group for p in pieces}) != 1:
+                raise Unsupported('rows of different column groups stacked')
+            R, shifts = 0, []
+            for k, p in enumerate(pieces):
+                shifts.append(p.start - R)
+                if p.length is None:
+                    if k != len(pieces) - 1:
+                        raise Unsupported('open-ended piece before the last one')
+                else:
+                    R += p.length
+            if len(set(shifts)) != 1:
+                raise _Boundary('the stacked readings `%s` take output rows %s from samples '
+                                'shifted by %s: the first interval(s) are computed from other '
+                                'samples than the generic interval'
+                                % (norm_text(node)[:60], list(range(len(shifts))), shifts), node)
+            if shifts[0] == 0:
+                return self.generic(pieces[0].group, 'prev')
+            if shifts[0] == 1:
+                return self.generic(pieces[0].group, 'cur')
+            raise Unsupported('readings shifted by %d samples' % shifts[0])
         if q == 'numpy.diff':
             self.diff_of = args[0]
             return self.dt
@@ -123,6 +175,14 @@ def _run(ctx, mode, alg):
                        'table by position): with the six named columns in any other order than '
                        'gyro_x..z, accel_x..z the increments are silently computed from the wrong '
                        'signals' % e.attr)
+        raise AnalysisError('compute_increments_from_imu (%s) not analysable: %s' % (mode, e))
+    except _Boundary as e:
+        if not ctx.cache.get('cs-boundary'):
+            ctx.cache['cs-boundary'] = True
+            ctx.rule('CS-SLICE', 'previous=[:-1], current=[1:], dt=diff(index), index=index[1:], '
+                     'documented Increments columns')
+            ctx.ob('CS-SLICE', False, None, 'every interval pairs sample k-1 with sample k', f=f,
+                   node=e.node, key='boundary-rows', why=str(e))
         raise AnalysisError('compute_increments_from_imu (%s) not analysable: %s' % (mode, e))
     except Unsupported as e:
         raise AnalysisError('compute_increments_from_imu (%s) not analysable: %s' % (mode, e))
